@@ -1256,17 +1256,17 @@ example : ∃ g, parseGlif (fun _ => some 0) (Spec.flatten jd0) = .ok g :=
 -- format 1 (the single named `move` point becomes an anchor)
 example : ∃ g, parseGlif (fun _ => some 0) (Spec.flatten jd1) = .ok g :=
   judge_clean_accepted (fun _ _ => ⟨0, rfl⟩) jd1_clean
-    ⟨by intro e he; cases he, by intro as h; cases h; decide, rfl, by
+    ⟨(by intro e he; cases he), (by intro as h; cases h; decide), rfl, (by
       intro it hit
       simp only [jd1, List.mem_cons, List.not_mem_nil, or_false] at hit
       subst hit
       intro k hk
       simp only [List.mem_cons, List.not_mem_nil, or_false] at hk
       subst hk
-      refine ⟨by intro as h; cases h; decide, ?_⟩
+      refine ⟨(by intro as h; cases h; decide), ?_⟩
       intro c hc
       simp only [List.mem_cons, List.not_mem_nil, or_false] at hc
       subst hc
-      exact ⟨by intro as h; cases h; decide, rfl⟩⟩
+      exact ⟨(by intro as h; cases h; decide), rfl⟩)⟩
 
 end Glif
